@@ -238,7 +238,8 @@ META = {
                    "of a documented name dispatched to that name's loader. (3) Concrete facts without a quantifier, "
                    "evaluated (not solver-decided) by running every fetch_* with the remote loader replaced by a "
                    "recorder: pairwise distinct URLs, checksums, remote files and cache slots, checksum validation on; "
-                   "the 19 bundled CSVs are finite (n,2) float arrays with strictly increasing first column. The "
+                   "the 19 bundled CSVs are finite (n,2) float arrays with strictly increasing first column, also when requested "
+                   "again after the caller edited an earlier result in place. The "
                    "data-home clause of the property is decided in C19's file-system model.",
     "bounds": {"quick": "all documented names x all separator spellings; arbitrary strings of every length up to the "
                         "longest documented name + 1; characters 32..126", "thorough": "same (the space is covered in quick)"},
